@@ -203,8 +203,12 @@ ENDING = [
     ("oserror", '(raise (OSError "boom"))'), ("oserror-errno", '(raise (OSError 5 "io"))'),
     ("isadirectory", '(open "/")'), ("timeout", '(raise (TimeoutError "t"))'),
     ("filenotfound", '(open "/nonexistent-dir-hyverif/x")'),
+    # the program installs its own sys.excepthook and then dies: its report must appear in every mode
+    ("own-excepthook", '(setv sys.excepthook (fn [t v tb] (print "E: own-hook" t.__name__ :file sys.stderr) (print "hooked" t.__name__)))\n(print "before")\n(raise (KeyError "boom"))'),
+    ("own-excepthook-exit", '(setv sys.excepthook (fn [t v tb] (print "hooked" t.__name__) (sys.exit 7)))\\n(/ 1 0)'),
 ]
 FIXED_PROGRAMS = [
+    ("own-excepthook", '(setv sys.excepthook (fn [t v tb] (print "E: own-hook" t.__name__ :file sys.stderr) (print "hooked" t.__name__)))\n(print "before")\n(raise (KeyError "boom"))'),
     ("none", '(defreader up (.upper (.parse-one-form &reader)))\n(print #up "abc")'),
     ("oserror", '(raise (OSError "boom"))'), ("isadirectory", '(open "/")'),
     ("filenotfound", '(open "/nonexistent-dir-hyverif/x")'),
